@@ -16,11 +16,9 @@ How `std::string` positions are represented.  `parse` builds `std::string str(da
 walks it with `find*`; every position it computes is used either to cut a substring or as the
 number of bytes consumed.  The model keeps *the remaining suffix* instead of a position
 (`consumed = size - rest.length`), and a line of the buffer is obtained with `splitCRLF`
-(`str.find("\r\n", pos)`).  Inside the start line the code's `find_first_of(' ')`,
-`find_first_not_of(' ')` may run past the CRLF; in each such case the code ends in
-`state_ = kFail; return 0` (see the comments at `parseStartLine`), which is what the model
-returns.  `StringToUrlPath` cannot throw (its body is inside `try … catch (std::exception)`),
-so evaluating it on such an over-long string has no other effect.
+(`str.find("\r\n", pos)`).  Stage 1 is transcribed literally over the whole buffer
+(`startLineLit`); that it only depends on the bytes in front of the first CRLF is a lemma
+(`Proofs.startLineLit_eq`), not a modelling decision.
 
 Core Lean only (linked into the driver).
 -/
@@ -187,6 +185,19 @@ def verOf (v : Bytes) : Option String := (Gen.verTable.find? fun p => ascii p.2 
 def methodStr (e : String) : String := ((Gen.methodTable.find? fun p => p.1 == e).map (·.2)).getD ""
 def verStr (e : String) : String := ((Gen.verTable.find? fun p => p.1 == e).map (·.2)).getD ""
 
+/-- Reference (NOT regenerated): the standard request methods / protocol versions and the enum
+constant of common.h each must map to.  The tables above follow the source so that the theorems
+hold for whatever the tables contain; this reference is what a well-formed request is entitled to,
+and the check compares `StringToMethod` / `StringToHttpVer` of the working tree against it
+(ops `method`, `version`), so a wrong table entry is reported with the offending name as replay. -/
+def stdMethods : List (String × String) :=
+  [("GET", "kGet"), ("HEAD", "kHead"), ("PUT", "kPut"), ("POST", "kPost"), ("TRACE", "kTrace"),
+   ("OPTIONS", "kOptions"), ("DELETE", "kDelete")]
+def stdVersions : List (String × String) := [("HTTP/1.0", "k1_0"), ("HTTP/1.1", "k1_1"), ("HTTP/2.0", "k2_0")]
+
+def stdLookup (t : List (String × String)) (b : Bytes) : String :=
+  ((t.find? fun p => ascii p.1 == b).map (·.2)).getD "kUnset"
+
 /-! ### the request and the parser state -/
 
 structure Req where
@@ -222,34 +233,31 @@ deriving DecidableEq, Repr
 
 /-! ### stage 1: the start line -/
 
-/-- `line` = the bytes in front of the first CRLF of the buffer.  Returns method, url, version,
-`none` = `state_ = kFail; return 0`.
-  * no space in the line: the code's `method_str` then contains the CR → `kUnset` → fail;
-  * only spaces after the method: `url_str_begin >= end_pos` → fail;
-  * no space after the url inside the line: `url_str_end` is npos or beyond `end_pos`, hence
-    `ver_str_begin` is npos or `>= end_pos` → fail (whatever `StringToUrlPath` said about the
-    over-long string);
-  * only spaces after the url: `ver_str_begin >= end_pos` → fail. -/
-def parseStartLine (line : Bytes) : Option (String × UrlPath × String) :=
-  let m := line.takeWhile (· != 32)
-  let r1 := line.dropWhile (· != 32)
-  if r1.isEmpty then none else
-  match methodOf m with
-  | none => none
+/-- Literal transcription of stage 1 of `parse` after `end_pos` (the first CRLF) has been found.
+`s` is the WHOLE buffer (`str`), every `find*` of the code runs over it and may run past the
+CRLF exactly as in the code.  A position `p` of the code is represented by the suffix of `s`
+that starts at `p` (a `const char*`), `npos` by the empty suffix (a successful `find` never
+returns the end position), so `p >= end_pos` reads `suffix.length ≤ endLen` where `endLen` is
+the length of the suffix starting at `end_pos`.  `none` = `state_ = kFail; return 0`. -/
+def startLineLit (s : Bytes) (endLen : Nat) : Option (String × UrlPath × String) :=
+  let methodStr := s.takeWhile (· != 32)        -- str.substr(pos, method_str_end), pos = 0
+  let mEnd := s.dropWhile (· != 32)             -- method_str_end = str.find_first_of(' ', pos)
+  match methodOf methodStr with
+  | none => none                                -- method == Method::kUnset
   | some method =>
-    let r2 := dropSpaces r1
-    if r2.isEmpty then none else
-    let u := r2.takeWhile (· != 32)
-    let r3 := r2.dropWhile (· != 32)
-    if r3.isEmpty then none else
-    match parseUrlPath u with
-    | none => none
+    let uBeg := mEnd.dropWhile (· == 32)        -- url_str_begin = str.find_first_not_of(' ', method_str_end)
+    if uBeg.isEmpty || uBeg.length ≤ endLen then none else    -- npos || url_str_begin >= end_pos
+    let urlStr := uBeg.takeWhile (· != 32)      -- str.substr(url_str_begin, url_str_end - url_str_begin)
+    let uEnd := uBeg.dropWhile (· != 32)        -- url_str_end = str.find_first_of(' ', url_str_begin)
+    match parseUrlPath urlStr with
+    | none => none                              -- !StringToUrlPath(url_str, …)
     | some url =>
-      let v := dropSpaces r3
-      if v.isEmpty then none else
-      if v.take 5 != ascii "HTTP/" then none else
-      match verOf v with
-      | none => none
+      let vBeg := uEnd.dropWhile (· == 32)      -- ver_str_begin = str.find_first_not_of(' ', url_str_end)
+      if vBeg.isEmpty || vBeg.length ≤ endLen then none else  -- npos || ver_str_begin >= end_pos
+      let verStr := vBeg.take (vBeg.length - endLen)          -- str.substr(ver_str_begin, end_pos - ver_str_begin)
+      if verStr.take 5 != ascii "HTTP/" then none else        -- ver_str.compare(0, 5, "HTTP/") != 0
+      match verOf verStr with
+      | none => none                            -- ver == HttpVer::kUnset
       | some ver => some (method, url, ver)
 
 /-! ### stage 2: header lines -/
@@ -365,8 +373,8 @@ def parse (cfg : Cfg) (ps : PState) (s : Bytes) : PResult :=
     if !cfg.crlfFirst && (methodOf (s.takeWhile (· != 32))).isNone then .ok ⟨.fail, {}, none⟩ s
     else match splitCRLF s with
       | none => .ok PState.init s            -- return 0, state stays kInit
-      | some (line, after) =>
-        match parseStartLine line with
+      | some (_, after) =>
+        match startLineLit s (after.length + 2) with
         | none => .ok ⟨.fail, {}, none⟩ s    -- state_ = kFail; return 0
         | some (m, u, v) => headersStage cfg { method := m, url := u, ver := v } none after
   | .startLine => headersStage cfg ps.req ps.clen s
